@@ -556,6 +556,21 @@ def gen_RegLayouts():
             for sub in ast.walk(node):
                 if isinstance(sub, ast.Attribute) and isinstance(sub.value, ast.Name) and sub.value.id == "CrcAlg":
                     crc_alg = sub.attr
+    # TrustZone: struct formats f"<{n}I" / f"<{n}L" -> (byte order prefix, type code)
+    def struct_fmt(fn_name, call_name):
+        for node in ast.walk(parse("spsdk/image/trustzone.py")):
+            if isinstance(node, ast.FunctionDef) and node.name == fn_name:
+                for sub in ast.walk(node):
+                    if (isinstance(sub, ast.Call) and isinstance(sub.func, ast.Attribute) and sub.func.attr == call_name and sub.args
+                            and isinstance(sub.args[0], ast.JoinedStr)):
+                        parts = [v.value for v in sub.args[0].values if isinstance(v, ast.Constant)]
+                        if len(parts) == 2:
+                            return parts[0], parts[1]
+        return "?", "?"
+    pk, up = struct_fmt("_custom_export", "pack"), struct_fmt("_parse_raw_data", "unpack")
+    out.append("/-- struct formats of TrustZone._custom_export / _parse_raw_data: (byte-order prefix, type code) -/")
+    out.append(f"def tzPackFormat : String × String := ({lean_str(pk[0])}, {lean_str(pk[1])})")
+    out.append(f"def tzUnpackFormat : String × String := ({lean_str(up[0])}, {lean_str(up[1])})")
     out.append(f"/-- the `CrcAlg` member `XMCD.calculate_crc` uses -/")
     out.append(f"def xmcdCrcAlg : String := {lean_str(crc_alg)}")
     out.append(f"/-- FCB.SIZE / FCF.SIZE / BCA.SIZE: the minimal length `parse` accepts (FCB, FCF) -/")
